@@ -21,6 +21,26 @@ CHECKS = {
     ),
 }
 
+E2NOTE = ("Trusted: CPython, NumPy (result types and exceptions are observed from the real library on typed exemplars; + - * / idealised to exact "
+          "arithmetic: floats are reals), SymPy, antlr4 runtime, z3, the reference semantics in bbverif/ref. Stubs listed in bbverif/pysym/stubs.py. "
+          "Every sat answer is replayed concretely on the unpatched package in a pristine interpreter before it is reported. Bounded: see evidence.bounds.")
+
+CHECKS["C03"] = dict(
+    engine=E2, category="model_checking", design="§3 C03",
+    technique="symbolic execution of the real parser+evaluator on z3-term proxies (own engine), z3 decides impl != Pratt-reference per path; bounded automata inclusion (z3) for literal forms",
+    text="Every expression skeleton of the bounded generator (<=3 operators, brackets, unary signs, 15 functions, pi, variables, A[k]) is parsed by the real "
+         "parser and evaluated by the real _expression on proxies; z3 decides for all leaf values at once whether value or result kind can differ from the "
+         "reference (precedence per the property). Bounded symbolic model checking of the evaluator; not a proof.",
+    note=E2NOTE,
+)
+CHECKS["C02"] = dict(
+    engine=E2, category="model_checking", design="§3 C02",
+    technique="symbolic execution of blackbird.loads on skeleton scripts with z3-term proxies; z3 decides impl program != reference-interpreter program per path",
+    text="Skeleton scripts (metadata variants x sequences of statement variants) are loaded by the real code with every literal, mode and option value symbolic; "
+         "the loaded program is compared with the denotation given by an independent reference interpreter, for all values at once, by z3. Bounded.",
+    note=E2NOTE,
+)
+
 NOT_YET = "check not built yet in this round (see DESIGN.md §3 for the plan); not claimed"
 
 
